@@ -354,6 +354,8 @@ func ruleSplit(c *Ctx) {
 			key := fmt.Sprintf("munch:%s:record-return#%d", name, i+1)
 			ak := srcKey(a, 0)
 			found := false
+			extraCond := token.NoPos
+			hasExtra := false
 			for _, b := range fn.Blocks {
 				if len(b.Instrs) == 0 || !b.Dominates(t.ret.Block()) {
 					continue
@@ -368,13 +370,48 @@ func ruleSplit(c *Ctx) {
 				if condComparesWithLen(ifi.Cond, ak, s, 0) {
 					// a need-more return must be reachable from this test without passing the commit
 					for _, nm := range needMore {
-						if reachableAvoiding(b, t.ret.Block())[nm.ret.Block()] {
+						fromB := reachableAvoiding(b, t.ret.Block())
+						if fromB[nm.ret.Block()] {
 							found = true
+							// between the comparison and the need-more return nothing but atEOF may decide:
+							// any other condition makes the splitter commit a terminator that touches the end
+							// of the data in some states (a full buffer, say) although more input may follow
+							for x := range fromB {
+								if x == b || len(x.Instrs) == 0 || !reachableFrom(x)[nm.ret.Block()] {
+									continue
+								}
+								xi, ok := x.Instrs[len(x.Instrs)-1].(*ssa.If)
+								if !ok || !xi.Block().Dominates(nm.ret.Block()) && !reachableFrom(b)[x] {
+									continue
+								}
+								cond := xi.Cond
+								for {
+									if u, ok := cond.(*ssa.UnOp); ok && u.Op == token.NOT {
+										cond = u.X
+										continue
+									}
+									break
+								}
+								if p, ok := cond.(*ssa.Parameter); ok && p.Name() == "atEOF" {
+									continue
+								}
+								if condComparesWithLen(xi.Cond, ak, s, 0) {
+									continue
+								}
+								// only conditions that lie strictly between the comparison and the need-more return count
+								if !b.Dominates(x) || !x.Dominates(nm.ret.Block()) {
+									continue
+								}
+								hasExtra = true
+								extraCond = xi.Cond.Pos()
+							}
 						}
 					}
 				}
 			}
-			if found {
+			if found && hasExtra {
+				c.bad(key, extraCond, "%s: whether the splitter waits for more data when the %s reaches len(data) also depends on a condition other than atEOF: in the states where that condition fails (for example a full buffer) a terminator that may still grow is committed, so RT and the next record depend on read boundaries", name, munch)
+			} else if found {
 				c.ok(key, t.ret.Pos(), "%s is compared with len(data) before it is committed, and the splitter can ask for more data from there", munch)
 			} else {
 				c.bad(key, t.ret.Pos(), "%s: the record's terminator is the %s, but it is committed without comparing its end with len(data): when the match touches the end of the buffered data and more input follows, the terminator (and RT) is cut short, so records depend on read boundaries", name, munch)
